@@ -159,6 +159,9 @@ TYPE_NAMES = {str: 'str', int: 'int', float: 'float', bool: 'bool', list: 'list'
 
 
 def search_line(obj, item, cs, ms, ur, strict, ex_paths, ex_types, ex_regex):
+    from ..diffing import keys_modelled
+    if not keys_modelled(obj) or isinstance(item, tuple):
+        raise OutOfUniverse('dictionary keys outside the path model (tuples, bytes)')
     f = lambda b: 'T' if b else 'F'
     return 'SEARCH %s %s %s %s E %d %s T %d %s R %d %s %s %s' % (
         f(cs), f(ms), f(ur), f(strict), len(ex_paths), ' '.join(map(enc_str, ex_paths)), len(ex_types), ' '.join(enc_str(TYPE_NAMES[t]) for t in ex_types),
@@ -188,6 +191,12 @@ def gen_cases(ctx, n):
             obj = {'by_%d' % j: {k: ctx.rng.choice(['True', '1.0', 'hit', 1, 2.5, 'x2.50y'])} for j, k in enumerate(ks)}
             if ctx.rng.random() < 0.5:
                 obj = [obj, {ks[0]: {'deep': 'hit'}}]
+        if i % 8 == 7:
+            # dictionaries with tuple keys (one item, several items, empty) next to int keys and list indexes that would spell the same path
+            tk = ctx.rng.sample([(7,), (0, 1), (), (1, (2, 3)), (2.5, None)], 2)
+            obj = {tk[0]: ctx.rng.choice(['needle', 41, ['hay', 'needle']]), tk[1]: {'deep': 'needle'}, 7: 'hay', 0: ['x', [41, 43]]}
+            if ctx.rng.random() < 0.5:
+                obj = [obj, {'k': {tk[0]: 41}}]
         locs = locations(obj)
         leaves = [v for (_, _, v, _, _) in locs if not isinstance(v, (dict, list, tuple, set, frozenset))]
         keys_ = [k for (_, ks, _, via, _) in locs if via for k in ks[-1:]]
